@@ -65,6 +65,18 @@ def cases():
     # loop order projecting into the output
     c.append(("project into output", y(decl=conv, exprs=ce, mapping="  loop-order:\n    O: [W, S, C]\n")))
     c.append(("project into output (W innermost)", y(decl=conv, exprs=ce, mapping="  loop-order:\n    O: [C, S, W]\n")))
+    # the same rule with other index expressions: identity (an input rank named differently from the output's), a
+    # stride, a dilation, two index-math ranks - the loop order names the INPUT's rank, so the output would be projected into
+    ident = {"I": "[W]", "F": "[W]", "O": "[Q]"}
+    c.append(("project into output through an identity index expression", y(decl=ident, exprs=["O[q] = I[q] * F[q]"],
+              mapping="  loop-order:\n    O: [W]\n")))
+    c.append(("project into output through a stride", y(decl={"I": "[W]", "O": "[Q]"}, exprs=["O[q] = I[2 * q]"],
+              mapping="  loop-order:\n    O: [W]\n")))
+    c.append(("project into output, dilated filter", y(decl={"I": "[W]", "F": "[S]", "O": "[Q]"}, exprs=["O[q] = I[q + 2 * s] * F[s]"],
+              mapping="  loop-order:\n    O: [S, W]\n")))
+    conv2 = {"I": "[H, W]", "F": "[R, S]", "O": "[P, Q]"}
+    c.append(("project into output, second of two index-math ranks", y(decl=conv2, exprs=["O[p, q] = I[p + r, q + s] * F[r, s]"],
+              mapping="  loop-order:\n    O: [P, R, W, S]\n")))
     return c
 
 
